@@ -4,6 +4,7 @@ executable text is extracted from /repo on the spot.
 Unit syntax: ordinary Verus text, copied verbatim, interleaved with directives:
 
   //@include <path relative to /verif>
+  //@template <path relative to /verif> KEY=VALUE ...   include a unit template ({{KEY}} replaced), directives inside are processed
   //@extract <repo-relative file> :: <selector>        (selector: see rustscan.Source.locate)
      //@as <name>                 obligation name used in reports (default: selector tail)
      //@ret <ident>               name the return value:  -> T   ==>  -> (ident: T)
@@ -16,6 +17,7 @@ Unit syntax: ordinary Verus text, copied verbatim, interleaved with directives:
      //@sigonly                   emit only the signature + spec, terminated by ';' (trait methods)
      //@attrs derive              keep only the item's #[derive(..)] attributes
      //@replace_body              R8: keep the signature, drop the body (`unimplemented!()`), mark external_body: contract ASSUMED
+     //@expand_decode_bits <file> <Enum> <suffix> <D>   R19+R20: expand the `decode_bits!` invocation following the macro's rules, outlined every D levels (jetgen.py)
      //@vattr <attr>              emit `#[verifier::<attr>]` before the fn (verifier-only, e.g. rlimit(80))
      //@external_body             emit `#[verifier::external_body]` before the item (body kept, not verified)
      //@hoist <kind>:<name>       R14: remove a nested item from the body (extract it separately)
@@ -202,6 +204,34 @@ def _depth(m, pos):
     return d
 
 
+_FAMILIES = {}
+
+
+def jet_family(repo, relf, enum_name, suffix, D, vacuity):
+    """parse encode/decode of one jet family from the repository (cached per weave call by the caller)"""
+    import jetgen
+    key = (repo, relf, enum_name, suffix, D, vacuity)
+    if key in _FAMILIES:
+        return _FAMILIES[key]
+    try:
+        src = Source(relf, open(os.path.join(repo, relf)).read())
+        es, ee = src.locate("impl[=impl Jet for %s] / fn:encode" % enum_name)
+        ds, de = src.locate("impl[=impl Jet for %s] / fn:decode" % enum_name)
+        msrc = Source("src/macros.rs", open(os.path.join(repo, "src/macros.rs")).read())
+        ms, me = msrc.locate("macro:decode_bits")
+    except (OSError, ScanError) as ex:
+        raise LostAnchor("jet family %s: %s" % (enum_name, ex))
+    try:
+        transcribers = jetgen.parse_macro(msrc.text[ms:me])
+        fam = jetgen.Family(enum_name, suffix, src.text[es:ee], src.text[ds:de], transcribers, D=D, vacuity=vacuity)
+    except (jetgen.GenError, ValueError) as ex:
+        raise LostAnchor("jet family %s: %s" % (enum_name, ex))
+    fam.where_encode = "%s:%d" % (relf, src.line_of(es))
+    fam.where_decode = "%s:%d" % (relf, src.line_of(ds))
+    _FAMILIES[key] = fam
+    return fam
+
+
 def _count_ok(found, count):
     """declared count: an exact number, '+' (at least one) or '*' (any)"""
     if count == "+":
@@ -227,7 +257,19 @@ def _read_block(lines, i):
 
 
 def weave(unit_path, repo, verif_root, vacuity=False):
-    lines = open(unit_path).read().split("\n")
+    _FAMILIES.clear()
+    lines = []
+    for ln in open(unit_path).read().split("\n"):
+        if ln.strip().startswith("//@template "):
+            # //@template <path relative to /verif> KEY=VALUE ... : the file's lines with {{KEY}} replaced, processed as unit text
+            parts = ln.strip().split()
+            ttext = open(os.path.join(verif_root, parts[1])).read()
+            for kv in parts[2:]:
+                k_, v_ = kv.split("=", 1)
+                ttext = ttext.replace("{{%s}}" % k_, v_)
+            lines += ttext.split("\n")
+        else:
+            lines.append(ln)
     chunks, log, extracted = [], [], []
     sources = {}
     i = 0
@@ -255,6 +297,40 @@ def weave(unit_path, repo, verif_root, vacuity=False):
             if found != want:
                 raise LostAnchor("census /%s/ in %s: %d matches, expected %d (%s)" % (mt.group(3), pat, found, want, ", ".join(hits)))
             log.append({"rule": "census", "where": pat, "fn": "-", "before": mt.group(3), "after": "%d matches: %s" % (found, ", ".join(hits))})
+            i += 1
+        elif s.startswith("//@gen jetfamily "):
+            # //@gen jetfamily <repo file> <Enum> <suffix> <D> <part>   (see jetgen.py: G1, G2, R20, G3)
+            _, _, relf, enum_name, suffix, D_, part = s.split()
+            fam = jet_family(repo, relf, enum_name, suffix, int(D_), vacuity)
+            gen = {"table": fam.code_table, "twins": fam.twins, "chunks": fam.exec_chunks, "sound": fam.sound_lemmas, "complete": fam.complete_lemmas}[part]
+            rule = {"table": "G1", "twins": "G2", "chunks": "R20", "sound": "G3", "complete": "G3"}[part]
+            chunks.append(Chunk(gen(), {"kind": "generated", "what": "jet family %s: %s" % (enum_name, part), "file": relf,
+                                        "line": int((fam.where_encode if part == "table" else fam.where_decode).split(":")[1])}))
+            log.append({"rule": rule, "where": fam.where_encode if part == "table" else fam.where_decode, "fn": "%s::%s" % (enum_name, "encode" if part == "table" else "decode"),
+                        "before": str(fam.stats()), "after": "generated part `%s`" % part})
+            i += 1
+        elif s.startswith("//@gen codetable "):
+            # //@gen codetable <repo file> <Enum> <suffix>: copy the (n, len) table of `fn encode` of that jet family
+            # into a spec function `code_<suffix>(j) -> (nat, nat)` — the table text itself, arm by arm
+            _, _, relf, enum_name, suffix = s.split()
+            srcg = Source(relf, open(os.path.join(repo, relf)).read())
+            try:
+                gs, ge = srcg.locate("impl[=impl Jet for %s] / fn:encode" % enum_name)
+            except ScanError as ex:
+                raise LostAnchor(str(ex))
+            body = srcg.text[gs:ge]
+            arms = re.findall(r"%s::(\w+)\s*=>\s*\((\d+),\s*(\d+)\)," % enum_name, body)
+            if not arms or not re.search(r"w\.write_bits_be\(n, len\)", body):
+                raise LostAnchor("%s: encode table of %s not in the expected `(n, len)` + write_bits_be(n, len) form" % (relf, enum_name))
+            n_variants = len(re.findall(r"%s::\w+\s*=>" % enum_name, body))
+            if n_variants != len(arms):
+                raise LostAnchor("%s: %d encode arms but %d parsed" % (relf, n_variants, len(arms)))
+            out_ = ["pub open spec fn code_%s(j: %s) -> (nat, nat) {" % (suffix, enum_name), "    match j {"]
+            for nm, n_, l_ in arms:
+                out_.append("        %s::%s => (%s, %s)," % (enum_name, nm, n_, l_))
+            out_ += ["    }", "}"]
+            chunks.append(Chunk("\n".join(out_), {"kind": "generated", "what": "code table of %s::encode (%d arms)" % (enum_name, len(arms)), "file": relf, "line": srcg.line_of(gs)}))
+            log.append({"rule": "G1", "where": "%s:%d" % (relf, srcg.line_of(gs)), "fn": "%s::encode" % enum_name, "before": "%d match arms" % len(arms), "after": "spec fn code_%s (same arms)" % suffix})
             i += 1
         elif s.startswith("//@use "):
             # //@use <unit> <obligation name> : import an extract block of another unit with its contract ASSUMED
@@ -319,6 +395,8 @@ def weave(unit_path, repo, verif_root, vacuity=False):
                     opts["sigonly"] = True
                 elif d == "external_body":
                     opts["external_body"] = True
+                elif d.startswith("expand_decode_bits "):
+                    opts["expand_decode_bits"] = d.split()[1:]
                 elif d.startswith("vattr "):
                     opts["vattrs"].append(d[6:].strip())
                 elif d.startswith("assumed "):
@@ -441,6 +519,20 @@ def _do_extract_impl(repo, relfile, selector, opts, sources, log, extracted, len
             for _ in range(found):
                 log.append({"rule": rule, "where": where, "fn": name, "before": frm, "after": to})
             text = text.replace(frm, to)
+    if opts.get("expand_decode_bits"):
+        relf_, enum_, suffix_, D_ = opts["expand_decode_bits"]
+        fam = jet_family(repo, relf_, enum_, suffix_, int(D_), bool(opts.get("vacuity")))
+        import jetgen
+        try:
+            bits_, tree_, pre_, post_ = jetgen.parse_decode_fn(text)
+        except jetgen.GenError as ex:
+            raise LostAnchor("%s: %s" % (name, ex))
+        if tree_ != fam.tree:
+            raise LostAnchor("%s: decode tree differs from the family's" % name)
+        text = pre_ + fam.exec_root_body() + post_
+        log.append({"rule": "R19", "where": where, "fn": name, "before": "decode_bits!(%s, {tree of %d nodes})" % (bits_, fam.stats()["tree_nodes"]),
+                    "after": "expanded by the extractor following the macro's three rules (src/macros.rs); `.into()` on the error constructors dropped"})
+        log.append({"rule": "R20", "where": where, "fn": name, "before": "one match tree", "after": "cut every %s levels into %d functions decode__c<path>" % (D_, fam.stats()["chunks"])})
     if not opts["noauto"]:
         n0 = len(log)
         text = auto_rules(text, log, where, exec_eval=opts.get("assert_exec", False))
